@@ -118,8 +118,8 @@ func init() {
 	propTable["C17"].KeyFilter["OP2TABLE"] = keyHas("|query|", "|pos")
 	propTable["C17"].KeyFilter["USERIDX"] = keyHas("outputQueryAndErrPos")
 
-	prop("C18", []string{"PLANMAP", "MUTSITE", "ROLECHAIN", "NOREADAFTEREXIT", "NARROWONLYKEY", "ROUTE", "RANGEALG", "PREFIXALG", "ERRPROP", "SCANALG", "ATOMALG"},
-		"Structural necessary conditions of C18: PLANMAP (EMPTY reads nothing, MGET uses point reads only and all keys, PREFIX/RANGE use the matching cursor plan, and the chosen access path is not replaced later), MUTSITE(e) (the point-read plan calls only Get, the empty plan nothing), ROLECHAIN (seek to the region start, stop at the first key beyond the inclusive end / without the prefix), NOREADAFTEREXIT (no further cursor read after the region was left), ROUTE/NARROWONLYKEY (equality and IN produce point regions). PREFIXALG (AND of a prefix with a prefix, range or key set reads nothing when the operands share no key), ERRPROP on the scan plans (a failed Seek or cursor creation is not followed by reads from an unpositioned cursor). SCANALG (AND of any two scan kinds reads nothing when they share no key). ATOMALG (key-pinning atoms read only the pinned region; equality and IN use point reads).",
+	prop("C18", []string{"PLANMAP", "MUTSITE", "ROLECHAIN", "REGIONSTICKY", "NARROWONLYKEY", "ROUTE", "RANGEALG", "PREFIXALG", "ERRPROP", "SCANALG", "ATOMALG"},
+		"Structural necessary conditions of C18: PLANMAP (EMPTY reads nothing, MGET uses point reads only and all keys, PREFIX/RANGE use the matching cursor plan, and the chosen access path is not replaced later), MUTSITE(e) (the point-read plan calls only Get, the empty plan nothing), ROLECHAIN (seek to the region start, stop at the first key beyond the inclusive end / without the prefix), REGIONSTICKY (leaving the region is recorded in the plan and guards every later cursor read, across calls), ROUTE/NARROWONLYKEY (equality and IN produce point regions). PREFIXALG (AND of a prefix with a prefix, range or key set reads nothing when the operands share no key), ERRPROP on the scan plans (a failed Seek or cursor creation is not followed by reads from an unpositioned cursor). SCANALG (AND of any two scan kinds reads nothing when they share no key). ATOMALG (key-pinning atoms read only the pinned region; equality and IN use point reads).",
 		"That intersection* returns a region inside both operands depends on order relations among literals (DESIGN.md §6).")
 	propTable["C18"].KeyFilter["ATOMALG"] = keyHas("|tight", "|interpretable")
 	propTable["C18"].KeyFilter["SCANALG"] = keyHas("|tight", "|interpretable")
